@@ -29,6 +29,9 @@ GENERIC = [
     "api-404",
     "api-409",
     "api-500",
+    "api-408",
+    "api-413",
+    "api-501",
     "transport-other",
     "transport-base",
 ]
